@@ -180,10 +180,10 @@ class Explorer:
             adt = rv.get("adt")
             cur_d = deep(st, cur)
             for n, tg in m.items():
-                out.append((tg, (key, n, adt, cur), ("variant", key, n, cur_d)))
+                out.append((tg, (key, n, adt, cur_d), ("variant", key, n, cur_d)))
             if rest or not m:
                 for n in rest:
-                    out.append((otherwise, (key, n, adt, cur), ("variant", key, n, cur_d)))
+                    out.append((otherwise, (key, n, adt, cur_d), ("variant", key, n, cur_d)))
                 if not rest:
                     out.append((otherwise, None, ("variant", key, "?", cur_d)))
             return out
